@@ -7,7 +7,7 @@ import c02, c07, consume
 
 CONFIGS_QUICK = ["F_all"]
 CONFIGS_THOROUGH = ["F_all", "F_nool"]
-TECHNIQUE = 'static analysis: sibling agreement of the two XmlRead impls (call sequences per path), constructor configuration equality, chunk-independence summaries'
+TECHNIQUE = 'static analysis: sibling agreement of the two XmlRead impls (call sequences per path), constructor configuration equality, chunk-independence summaries, owned/borrowed arm agreement of in-place trimming'
 EXPLANATION = (
     "Sibling agreement of the two XmlRead implementations (SliceReader, IoReader): `next` is the same loop (read one event, "
     "StartTrimmer::trim, return on Some) differing only by buf.clear() before the read and into_owned() after it; "
